@@ -179,6 +179,23 @@ def mismatch_diffs(m):
                     d.append((f'row[{o["op"]}{",all" if o["all"] else ""}{",neg" if o["negate"] else ""}{",ws" if o["ws"] else ""}{",limit" if o["limit"] else ""}]{kind}',
                               dict(o=o, ranges=e['rows'][i]), g['rows'][i]))
             return d
+        if rec['ev'] == 'Query':
+            if not e.get('ok'):
+                return [('query.outcome', 'err', rec['outcome'])]
+            if rec['outcome'] != 'ok':
+                return [('query.outcome', 'ok', rec['outcome'] + ':' + str(g.get('error', ''))[:100])]
+            es = sorted(json.dumps(x) for x in e.get('rows', []))
+            bs = [json.dumps(x) for x in g.get('base', [])]
+            d = []
+            if len(set(bs)) != len(bs):
+                d.append(('query.duplicates', 'each row once', 'rows repeated'))
+            if set(bs) - set(es):
+                d.append(('query.extra', [], [json.loads(x) for x in sorted(set(bs) - set(es))][:4]))
+            if set(es) - set(bs):
+                d.append(('query.missing', [json.loads(x) for x in sorted(set(es) - set(bs))][:4], []))
+            if not d:
+                d.append(('query.limit', 'slice of the unlimited result', dict(rows=g.get('rows'), base=g.get('base'))))
+            return d
         if rec['ev'] == 'Parse':
             a = rec['a']
             d = []
@@ -305,7 +322,7 @@ def attribute(m, diffs):
 
 READONLY_OWNER = {'Lookup': 'C03', 'TextSel': 'C04', 'AnnTextOf': 'C04', 'OffsetReport': 'C04', 'Utf8Byte': 'C12',
                   'ByteToChar': 'C12', 'TextOp': 'C07', 'TestRelation': 'C13', 'RelatedText': 'C06',
-                  'TestRelationRow': 'C13', 'RelatedRow': 'C06', 'Validate': 'C18', 'WebAnno': 'C17', 'Parse': 'C09'}
+                  'TestRelationRow': 'C13', 'RelatedRow': 'C06', 'Validate': 'C18', 'WebAnno': 'C17', 'Parse': 'C09', 'Query': 'C08'}
 
 
 def _has_offset(t):
@@ -338,6 +355,15 @@ def arg_features(rec):
             f.append('off=' + a['off']['bk'] + a['off']['ek'])
     elif ev == 'OffsetReport':
         f.append('m=%d' % a['m'])
+    elif ev == 'Query':
+        def kinds(q):
+            return '+'.join((c['k'] + ('@m' if c['q'] else '') + ('@rec' if c['rec'] else '') + (':' + c['b'] if c['k'] in ('Relation', 'Text') else '')
+                             + ('(' + '+'.join(u['k'] + ('@m' if u['q'] else '') for u in c['u']) + ')' if c['u'] else '')) for c in q['cs'])
+        q = a['q']
+        f.append('form=' + a['form'])
+        f.append(q['rt'] + '[' + kinds(q) + ']')
+        for sq in q['subs']:
+            f.append(('opt ' if sq['opt'] else '') + 'sub ' + sq['rt'] + '[' + kinds(sq) + ']')
     elif ev == 'Parse':
         f.append('mutated' if a['mutated'] else ('built' if a['built'] else 'grammar'))
         kinds = sorted(set(c['k'] for c in a['ast'].get('cs', [])))
@@ -377,6 +403,8 @@ def arg_features(rec):
 def fingerprint(m, diffs):
     rec, exp = m['rec'], m['exp']
     paths = sorted(set(norm_path(p) for p, _, _ in diffs))
+    if exp.get('readonly') and rec['ev'] == 'Query':
+        return '|'.join(['Query', 'got=' + rec['outcome'], ','.join(paths), ','.join(arg_features(rec))])
     if exp.get('readonly') and rec['ev'] == 'Parse':
         return '|'.join(['Parse', 'got=' + rec['outcome'], ','.join(sorted(set(re.sub(r'\[\*\]', '', p) for p in paths))), ','.join(arg_features(rec))])
     if exp.get('readonly') and rec['ev'] in ('TestRelationRow', 'RelatedRow', 'WebAnno'):
